@@ -847,6 +847,9 @@ class SRPKeyExchange(KeyExchange):
 
     def makeServerKeyExchange(self, sigHash=None):
         """Create SRP version of Server Key Exchange"""
+        if self.clientHello.srp_username is None:
+            # SRP cipher suite offered without the SRP extension
+            raise TLSUnknownPSKIdentity("Client did not provide SRP identity")
         srpUsername = bytes(self.clientHello.srp_username)
         #Get parameters from username
         try:
